@@ -73,7 +73,7 @@ func c07Canon(b string) string {
 func (c07) ID() string    { return "C07" }
 func (c07) Level() string { return "fault_enumeration" }
 func (c07) Rule() string {
-	return "enumerates six ClientAuth policies x client behaviours (no certificate, trusted, untrusted CA, expired, expired only at the configured time (not on the wall clock), in date only at the configured time, wrong extended key usage, encryption certificate first without CertificateVerify, certificate with CertificateVerify missing / made with another key / over another transcript) x ECC and ECDHE suites (GCM and CBC) x both stacks for full handshakes, and (policy of the original handshake) x (policy now in force) x behaviour for resumed handshakes over configurations sharing the session cache (also: same policy but other client roots, or a clock past the certificates' end); the verifying policies also with InsecureSkipVerify set on the server's configuration and with ClientCAs left unset; behaviours also include a good signing certificate with an untrusted / expired encryption certificate (part of the identity under ECDHE); after every refused full handshake the client offers that handshake's session id with the master secret it computed (must not be resumed); thorough repeats under many seeds. A scripted client on the independent reference implementation plays the behaviour against a real server. The expected outcome comes from a model of the ClientAuthType documentation plus the standard's rule that ECDHE needs the client certificates. Behaviours also include a signing certificate that does not verify (untrusted, expired, wrong extended key usage) next to a good encryption certificate. distinct = distinct (stack, suite, policies, behaviour, resumed); non-trivial = the server reached the point where the behaviour matters"
+	return "enumerates six ClientAuth policies x client behaviours (no certificate, trusted, untrusted CA, expired, expired only at the configured time (not on the wall clock), in date only at the configured time, wrong extended key usage, encryption certificate first without CertificateVerify, certificate with CertificateVerify missing / made with another key / over another transcript) x ECC and ECDHE suites (GCM and CBC) x both stacks for full handshakes, and (policy of the original handshake) x (policy now in force) x behaviour for resumed handshakes over configurations sharing the session cache (also: same policy but other client roots, or a clock past the certificates' end); the verifying policies also with InsecureSkipVerify set on the server's configuration and with ClientCAs left unset; behaviours also include a good signing certificate with an untrusted / expired encryption certificate (part of the identity under ECDHE); after every refused full handshake the client offers that handshake's session id with the master secret it computed (must not be resumed); thorough repeats under many seeds. A scripted client on the independent reference implementation plays the behaviour against a real server. The expected outcome comes from a model of the ClientAuthType documentation plus the standard's rule that ECDHE needs the client certificates. Behaviours also include a signing certificate that does not verify (untrusted, expired, wrong extended key usage) next to a good encryption certificate. Behaviour cert-msg-omitted: the requested Certificate message is left out altogether (not sent empty). distinct = distinct (stack, suite, policies, behaviour, resumed); non-trivial = the server reached the point where the behaviour matters"
 }
 func (c07) Components() (real, stub []string) {
 	return []string{"tlcp/dtlcp server (instrumented): certificate request, processCertsFromClient, CertificateVerify check, resumption, session cache"},
